@@ -163,6 +163,11 @@ impl<VM: VMBinding> SFT for LargeObjectSpace<VM> {
                 for offset in 0..vo_bit::VO_BIT_WORD_TO_REGION {
                     let addr = cur_page + offset;
                     if unsafe { vo_bit::is_vo_addr(addr) } {
+                        // The page-granular search may find an object that starts after `ptr`
+                        // or further below `ptr` than the caller allowed.
+                        if addr > ptr || ptr - addr >= max_search_bytes {
+                            return None;
+                        }
                         return vo_bit::is_internal_ptr_from_vo_bit::<VM>(addr, ptr);
                     }
                 }
